@@ -5,6 +5,7 @@
 -/
 import Pongo.Model.Lex
 import Pongo.Gen.LexTables
+import Pongo.Model.Wire
 
 open Pongo
 
@@ -25,6 +26,10 @@ def handle (line : String) : String :=
     match Bytes.ofHex h with
     | some s => showLex (lex Gen.lexTables s)
     | none => "bad-hex"
+  | "run" :: rest =>
+    match Wire.decodeReq rest with
+    | some r => Wire.runReq r
+    | none => "bad-request"
   | _ => "bad-op"
 
 partial def loop (i o : IO.FS.Stream) : IO Unit := do
